@@ -3,22 +3,28 @@
 The real ``billiard.connection.Connection`` (from ``Pipe(duplex=False)`` and
 ``Pipe(duplex=True)``) runs over the virtual pipes of ``vmc.vos``.  Parts:
 
-forms      complete finite table: sender argument forms (bytes / bytearray /
-           memoryview / array('i'), every valid and the nearest invalid
-           (offset, size)), receiver forms (recv_bytes, maxlength, recv_bytes_into
-           buffer sizes and offsets, recv), closed / wrong-direction handles
-           with the number of read/write calls logged;
-split      sequential driver, every read / write answered full / 1 byte / half
-           / EINTR by the environment, all choice sequences up to a deviation
-           bound (explore.dfs);
-peerclose  the peer's stream ends after byte position k (all k for short
-           streams), reads split as above;
-conc       sender || receiver (and an echo pair) as two vthreads over a pipe
-           of small capacity, all interleavings up to a preemption bound;
-conformance (counted in ``validated``) the same streams through a real
-           os.pipe() / socket.socketpair() with a reader thread, the writer
-           emitting the pieces the model chose.
+forms      complete finite table, one fresh connection pair per case: sender
+           argument forms (bytes / bytearray / memoryview / array, every
+           valid and the nearest invalid (offset, size)), receiver forms
+           (recv_bytes, maxlength, recv_bytes_into buffer sizes and offsets,
+           recv), closed / wrong-direction handles with every kernel call on
+           the fd counted.  Each case runs on the virtual OS and, with the
+           same oracle, on the real kernel objects.
+split      sequential driver, message-length sequences of 1..3; every read /
+           write answered full / 1 byte / half / EINTR by the environment,
+           all choice sequences up to a deviation bound (explore.dfs).
+peerclose  the peer's stream ends after byte position k (every k for
+           streams of messages <= 40 bytes, {0,3,4,5,len+3,len+4} per message
+           for long ones), reads split as above.
+conc       sender || receiver (and an echo pair over a duplex connection) as
+           two vthreads over pipes of small capacity, all interleavings and
+           environment answers up to a preemption / deviation bound.
+conformance (``validated``) every stream of split / peerclose is also sent
+           through a real os.pipe() / socket.socketpair() with a reader
+           thread running the real Connection; the writer emits the pieces
+           the model's reads returned.  Results must be identical.
 
+Oracle = the list of messages sent (nothing of billiard is modelled).
 DESIGN.md section 5, C13.
 """
 import array
@@ -212,7 +218,7 @@ class Exec:
         return n
 
 
-def _send_one(tx, sform, i, m, env=None):
+def _send_one(tx, sform, i, m):
     if sform == 'bytes':
         tx.send_bytes(m)
     elif sform == 'mv':
@@ -367,7 +373,6 @@ def _forms_recv(ex, rx, tx, c):
     tx.send_bytes(nxt)
     tx.close()
     ex.io_reset()
-    readonly = c['kind'] == 'pipe'
     tag = 'L=%d %r on %s' % (L, form, c['kind'])
     if form[0] == 'bytes':
         r = rx.recv_bytes()
@@ -404,10 +409,9 @@ def _forms_recv(ex, rx, tx, c):
         if not (rx.closed or not rx.readable):
             return None, ('%s: oversized message raised %s but the '
                           'connection is still readable' % (tag, err))
-        if readonly and not rx.closed:
-            return None, ('%s: oversized message on a read-only handle '
-                          'raised %s but the handle is not closed' % (
-                              tag, err))
+        # (a read-only handle is closed by the pinned code; the statement
+        # only demands "stops being readable", so closedness is recorded in
+        # the outcome, not required)
         try:
             r2 = rx.recv_bytes()
         except Exception as exc:
@@ -708,7 +712,6 @@ def _run_stream(cfg, prefix, sink=None):
     sent = [payload(i, L) for i, L in enumerate(lens)]
     v = None
     got = None
-    stream = None
     try:
         with Exec(env=env) as ex:
             rx, tx = ex.pipe(kind)
@@ -729,7 +732,7 @@ def _run_stream(cfg, prefix, sink=None):
             env.on = cut is None
             for i, m in enumerate(sent):
                 try:
-                    _send_one(tx, sform, i, frames[i] if frames else m, env)
+                    _send_one(tx, sform, i, frames[i] if frames else m)
                 except Exception as exc:
                     v = 'send #%d (%d bytes) raised %s: %s' % (
                         i, len(m), type(exc).__name__, exc)
